@@ -62,6 +62,7 @@ struct Module {
     globs: Vec<String>,
     fns: Vec<ItemFn>,
     consts: HashMap<String, String>,
+    const_exprs: HashMap<String, Expr>,
 }
 
 struct Global {
@@ -237,6 +238,14 @@ impl<'a> Ctx<'a> {
             },
             Expr::Reference(r) => self.lit_bytes(&r.expr),
             Expr::Paren(p) => self.lit_bytes(&p.expr),
+            // a `const KW: &str = "..";` of the same module
+            Expr::Path(p) if p.path.segments.len() == 1 => {
+                let e: Expr = self.m.const_exprs.get(&p.path.segments[0].ident.to_string())?.clone();
+                match e {
+                    Expr::Lit(_) | Expr::Reference(_) => self.lit_bytes(&e),
+                    _ => None,
+                }
+            }
             _ => None,
         }
     }
@@ -984,16 +993,12 @@ impl<'a> Ctx<'a> {
                                     if tokens_of(&okc.func) == "Ok" && okc.args.len() == 1 {
                                         if let Expr::Tuple(tt) = &okc.args[0] {
                                             if tt.elems.len() == 2 {
+                                                // the same thing as `map(EXPR, |PAT| VALUE)(i)`: translated as that
                                                 let g = self.tr_g(inner);
-                                                let mut vars = vec![];
-                                                let pat = self.tr_pat(&pt.elems[1], &mut vars);
-                                                if let Some(pat) = pat {
-                                                    let body = match self.tr_aexp(&tt.elems[1]) {
-                                                        Some(b) => b,
-                                                        None => self.native_action(&tt.elems[1], &vars),
-                                                    };
-                                                    return format!("(Map (mk_action ({}) ({})) {})", pat, body, g);
-                                                }
+                                                let (p, v) = (&pt.elems[1], &tt.elems[1]);
+                                                let clos: Expr = syn::parse_quote!(|#p| #v);
+                                                let a = self.tr_action(&clos);
+                                                return format!("(Map {} {})", a, g);
                                             }
                                         }
                                     }
@@ -1059,6 +1064,7 @@ pub fn translate(repo: &Path) -> Output {
             globs: vec![],
             fns: vec![],
             consts: HashMap::new(),
+            const_exprs: HashMap::new(),
         };
         for item in &file.items {
             match item {
@@ -1066,6 +1072,7 @@ pub fn translate(repo: &Path) -> Output {
                 Item::Fn(f) if !is_test_item(&f.attrs) => m.fns.push(f.clone()),
                 Item::Const(c) => {
                     m.consts.insert(c.ident.to_string(), tokens_of(&c.expr).replace(' ', ""));
+                    m.const_exprs.insert(c.ident.to_string(), (*c.expr).clone());
                 }
                 _ => {}
             }
